@@ -237,6 +237,56 @@ def _jsonable_kw(kw):
     return {k: (list(map(list, v)) if k == "modes" else list(v) if isinstance(v, tuple) else v) for k, v in kw.items()}
 
 
+OPTION_HISTORIES = [
+    (dict(method='sca', threshold=0.5, cluster_method='mcl', ref='oh_mcl'), dict(inflation=4)),
+    (dict(method='sca', threshold=0.5, cluster_method='mcl', ref='oh_mcl'), dict(add_self_loops=False, expansion=3)),
+    (dict(method='sca', threshold=0.6, cluster_method='link_clustering', ref='oh_link'), dict(link_threshold=0.5)),
+    (dict(method='sca', threshold=0.6, cluster_method='link_clustering', ref='oh_link'), dict(matrix_type='weights')),
+    (dict(method='edit-dist', threshold=0.6, cluster_method='upgma', ref='oh_edit'),
+     dict(guess_threshold=True, gt_mode='item', gt_trange=(0.3, 0.7, 0.1))),
+]
+
+# the optional keywords of the unchanged tree (get_scorer(defaults=True) / cluster(defaults=True)); a keyword outside
+# these sets is new and is swept with generic values
+KNOWN_KEYWORDS = {
+    "get_scorer": {'cluster_method', 'defaults', 'factor', 'force', 'gop', 'limit', 'method', 'modes', 'preprocessing',
+                   'preprocessing_method', 'preprocessing_threshold', 'rands', 'ratio', 'restricted_chars', 'runs',
+                   'smooth', 'subset', 'threshold', 'unattested', 'unexpected', 'vscale'},
+    "cluster": {'_return_matrix', 'add_self_loops', 'defaults', 'expansion', 'external_scorer', 'gt_mode', 'gt_trange',
+                'guess_threshold', 'inflation', 'link_threshold', 'matrix_type', 'max_steps', 'mcl_logs'},
+}
+
+
+def keyword_sweep(path, seed, runs):
+    """Generic sweep: every optional keyword the current code offers beyond the known ones is called with a string,
+    a number, a tuple and True, the generator seeded identically before each call; the results enter the
+    cross-interpreter comparison."""
+    from lingpy import LexStat
+    results = []
+    base = {"get_scorer": dict(runs=runs, force=True),
+            "cluster": dict(method='sca', threshold=0.45, override=True, ref='sweepid')}
+    for meth in ("get_scorer", "cluster"):
+        try:
+            offered = set(getattr(LexStat(path), meth)(defaults=True))
+        except Exception:
+            continue
+        new = sorted(offered - KNOWN_KEYWORDS[meth])
+        if not new:
+            continue
+        obj = LexStat(path)
+        for key in new:
+            for val in ("KSL", 7, ("KSL", 1), True):
+                random.seed(seed)
+                try:
+                    getattr(obj, meth)(**dict(base[meth], **{key: val}))
+                    res = ([[float(v).hex() for v in row] for row in obj.cscorer.matrix] if meth == "get_scorer"
+                           else column(obj, 'sweepid'))
+                except Exception as e:
+                    res = "raised %s" % type(e).__name__
+                results.append([meth, key, repr(val), res])
+    return results
+
+
 CLUSTER_CALLS = [
     ("turchinid", dict(method='turchin', threshold=0.5)),
     ("editid", dict(method='edit-dist', threshold=0.5)),
@@ -516,7 +566,12 @@ def pipeline(path, seed, runs, full):
     for ref, kw in order:
         if isinstance(e2e[ref], str):
             continue
-        lex.cluster(override=True, **kw)
+        try:
+            lex.cluster(override=True, **kw)
+        except Exception as e:                     # it did not raise the first time
+            rep.append({"analysis": "cluster: the call that succeeded the first time raised %s: %s when repeated after "
+                                    "other cluster calls on the same object" % (type(e).__name__, e), "args": kw})
+            break
         again = column(lex, ref)
         if again != e2e[ref]:
             rep.append({"analysis": "cluster", "args": kw, "first": e2e[ref], "second": again})
@@ -557,6 +612,28 @@ def pipeline(path, seed, runs, full):
         if column(lexf, ref) != e2e[ref]:
             rep.append({"analysis": "cluster on a used LexStat object vs a fresh one", "args": kw,
                         "first": column(lexf, ref), "second": e2e[ref]})
+    # cluster(X); cluster(X + option); cluster(X): the third result must be the first (optional settings of one
+    # call must not persist on the object)
+    e2e["option_histories"] = []
+    for base_kw, opt in OPTION_HISTORIES:
+        try:
+            lexf.cluster(override=True, **base_kw)
+            r1 = column(lexf, base_kw["ref"])
+            lexf.cluster(override=True, **dict(base_kw, **opt))
+            r2 = column(lexf, base_kw["ref"])
+            lexf.cluster(override=True, **base_kw)
+            r3 = column(lexf, base_kw["ref"])
+        except ImportError:
+            continue
+        except Exception as e:
+            rep.append({"analysis": "cluster(X); cluster(X + option); cluster(X) raised %s: %s" % (type(e).__name__, e),
+                        "args": {"X": base_kw, "option": _jsonable_kw(opt)}})
+            continue
+        e2e["option_histories"].append([_jsonable_kw(opt), r2])
+        if r3 != r1:
+            rep.append({"analysis": "cluster(X); cluster(X + option); cluster(X): the third result differs from the first",
+                        "args": {"X": base_kw, "option": _jsonable_kw(opt)}, "first": r1, "second": r3})
+    e2e["keyword_sweep"] = keyword_sweep(path, seed, runs)
     hres, hbad = object_histories(lex, seed, 6 if full else 3)
     e2e["object_histories"] = hres
     rep.extend(hbad)
